@@ -74,6 +74,20 @@ def rules(t):
         for br, op, te, fe in cm:
             skip_edge, go_edge = (te, fe) if op == "Eq" else (fe, te)
             if op in ("Eq", "Ne") and t.edge_dominates(e, go_edge, c.bb) and c.bb not in (e.reachable_from([skip_edge[1]]) - e.reachable_from([go_edge[1]])): ok = True
+        if not ok:
+            # the same skip as the predicate of a `filter` over the connections: `.iter_mut().filter(|(id, _)| **id != except_id)`
+            for g in fn_and_closures(t, e):
+                if g is e: continue
+                c0, neg = strip(g.origin_of_local(0)), False
+                while isinstance(c0, tuple) and c0[0] == "un" and c0[1] == "Not": neg = not neg; c0 = c0[2]
+                cnd = t.norm_cond(c0)
+                if cnd[0] != "cmp" or cnd[1] not in ("Eq", "Ne"): continue
+                keep_if_ne = (cnd[1] == "Ne") != neg
+                sides = [fmt(resolved(t, cnd[2], g)), fmt(resolved(t, cnd[3], g))]
+                if not keep_if_ne or not any("except" in x for x in sides) or not any(re.search(r"P2\(", x) for x in sides): continue
+                tag = re.search(r"\{closure#\d+\}$", g.path).group(0)
+                recv = fmt(t.arg(c, 0))
+                if re.search(r"filter\([^{}]*iter_mut\([^{}]*connections[^{}]*" + re.escape(tag), recv) or (("::filter(" in recv or "Filter" in recv) and tag in recv and "connections" in recv): ok = True
         if not ok: r.bad("except", c, "broadcast_message_except does not skip exactly `id == except_id`")
     out.append(r)
     r = RuleResult("C11.d", "channels are kept apart: packets dispatched by kind and own channel id, channel objects built and registered under their configured id (shared with C03.a1/a2)", floor=14)
@@ -114,4 +128,6 @@ def rules(t):
     import rules.wave5 as W5
     out = _rules_c11_w5b(t)
     out.append(W5.full_visit(t, "C11.k", "RenetServer::update advances every connection: a disconnected or failing connection does not stop the traversal of the others", "RenetServer::update", "connections"))
+    for i_, fn_ in enumerate(("RenetServer::broadcast_message", "RenetServer::broadcast_message_except")):
+        out.append(W5.full_visit(t, "C11.l%d" % (i_ + 1), f"{fn_.split('::')[1]} reaches every connection: the traversal of connections is not cut short (no truncating adaptor, no early exit)", fn_, "connections"))
     return out
